@@ -48,7 +48,7 @@ def trace_for(lc, ctx, tid, seq, hist_mode):
         ctx.violation("deltamax-permutant-missing", case, expected="(value, sequence)", actual=b)
         return None
     ev.append({"q": "dmaxperm", "r": common.fx(b[1][0]), "perm": list(b[1][1])})
-    if c[0] != "ok" or not common.is_number(c[1]) or float(c[1]) != float(a[1]):
+    if c[0] != "ok" or not common.is_number(c[1]) or not common.close(c[1], Fraction(float(a[1])), tol=Fraction(1, 10**12)):
         ctx.violation("deltamax-unstable", case, expected=a, actual=c)
         return None
     return {"tid": tid, "seq": list(seq), "after": hist, "ev": ev, "value": float(a[1])}
